@@ -116,6 +116,12 @@ class SymBool:
     def __invert__(self):
         return mk_bool(z3.Not(self.t))
 
+    def __int__(self):
+        return int(bool(self))           # forks
+
+    def __index__(self):
+        return int(bool(self))
+
     def __eq__(self, o):
         return mk_bool(self.t == b2z(o))
 
